@@ -177,8 +177,8 @@ LawsHold(fo) == LET L == Lines(fo) n == NNodes(fo)
 (*           structure (offset SEED) is kept; MOD = 1 keeps all            *)
 (*   OPTS  : "full" | "light" option profile of the strata above NFULL     *)
 (***************************************************************************)
-EnvInt(s) == CHOOSE n \in 0..1000000 : ToString(n) = s
-Seed == EnvInt(IOEnv.SEED)
+EnvInt(s) == atoi(s)
+Seed == EnvInt(IOEnv.SEED) % 1000
 
 Bit(salt, m) == ((((salt % 65521) * (2 * m + 7)) \div 8) + (salt \div 65521)) % 2
 Alt(k) == CASE k = "ifdef" -> "ifdefined" [] k = "ifndef" -> "ifnotdefined"
@@ -190,6 +190,7 @@ Respell(fo, salt) ==
 
 \* the option sets tried on a structure with n macros and c guard combinations
 MaxCfgValues(c) == {k \in {1, 2, c - 1, c, c + 1} : k >= 1}
+Pairs(n) == {p \in (1..n) \X (1..n) : p[1] # p[2]}
 FullOpts(n, c) ==
   {NoOpt, Opt({}, {}, 0, TRUE)}
   \cup {Opt({}, {}, k, FALSE) : k \in MaxCfgValues(c)}
@@ -199,10 +200,10 @@ FullOpts(n, c) ==
   \cup {Opt({}, {i}, 0, TRUE) : i \in 1..n}
   \cup {Opt({i}, {}, 2, FALSE) : i \in 1..n}
   \cup {Opt({}, {i}, c, FALSE) : i \in 1..n}
-  \cup {Opt({i}, {j}, 0, FALSE) : i \in 1..n, j \in (1..n) \ {i}}
-  \cup {Opt({i}, {j}, 0, TRUE) : i \in 1..n, j \in (1..n) \ {i}}
-  \cup {Opt({i, j}, {}, 0, FALSE) : i \in 1..n, j \in (1..n) \ {i}}
-  \cup {Opt({}, {i, j}, 0, FALSE) : i \in 1..n, j \in (1..n) \ {i}}
+  \cup {Opt({i}, {j}, 0, FALSE) : <<i, j>> \in Pairs(n)}
+  \cup {Opt({i}, {j}, 0, TRUE) : <<i, j>> \in Pairs(n)}
+  \cup {Opt({i, j}, {}, 0, FALSE) : <<i, j>> \in Pairs(n)}
+  \cup {Opt({}, {i, j}, 0, FALSE) : <<i, j>> \in Pairs(n)}
 LightOpts(n, c, salt) ==
   LET i == 1 + (salt % n)
       j == 1 + ((salt \div 7 + i) % n)
@@ -220,20 +221,20 @@ GenCases ==
       Mod == EnvInt(IOEnv.MOD)
       full == UNION {Forests(n, Depth, 1, AllKinds) : n \in 0..NFull}
       fullSeq == SetToSeq(full)
-      PolSeq(n) == SetToSeq(Forests(n, Depth, 1, PolKinds))
       Keep(n, i) == n < NPol \/ Mod <= 1 \/ (i + Seed) % Mod = 0
-      polSeq == FoldLeft(LAMBDA acc, n :
-                            LET s == PolSeq(n)
-                            IN acc \o SelectSeq([i \in DOMAIN s |-> IF Keep(n, i) THEN Respell(s[i], Seed * 1000 + i) ELSE <<0>>],
-                                                LAMBDA x : x # <<0>>),
-                         <<>>, [k \in 1..(IF NPol > NFull THEN NPol - NFull ELSE 0) |-> NFull + k])
-      CaseOf(fo, idx, light) ==
+      PolSeq(n) == LET s == SetToSeq(Forests(n, Depth, 1, PolKinds))
+                       idx == SelectSeq([i \in DOMAIN s |-> i], LAMBDA i : Keep(n, i))
+                   IN [j \in DOMAIN idx |-> Respell(s[idx[j]], Seed * 1000 + (idx[j] % 1000000))]
+      polSeq == FoldLeft(LAMBDA acc, n : acc \o PolSeq(n), <<>>,
+                         [k \in 1..(IF NPol > NFull THEN NPol - NFull ELSE 0) |-> NFull + k])
+      light == IOEnv.OPTS = "light"
+      CaseOf(fo, idx, lt) ==
         LET L == Lines(fo) n == NNodes(fo) c == Combos(L)
             os == IF n = 0 THEN {NoOpt, Opt({}, {}, 0, TRUE), Opt({}, {}, 1, FALSE)}
-                  ELSE IF light THEN LightOpts(n, c, Seed + idx) ELSE FullOpts(n, c)
+                  ELSE IF lt THEN LightOpts(n, c, Seed + idx) ELSE FullOpts(n, c)
+            oseq == SetToSeq(os)
         IN [id |-> idx, n |-> n, combos |-> c, forest |-> fo, lines |-> LinesOut(fo),
-            opts |-> [k \in 1..Cardinality(os) |-> OptOut(SetToSeq(os)[k])]]
-      light == IOEnv.OPTS = "light"
+            opts |-> [k \in DOMAIN oseq |-> OptOut(oseq[k])]]
   IN [i \in 1..(Len(fullSeq) + Len(polSeq)) |->
         IF i <= Len(fullSeq) THEN CaseOf(fullSeq[i], i, FALSE)
         ELSE CaseOf(polSeq[i - Len(fullSeq)], i, light)]
@@ -272,7 +273,7 @@ MacroName(m) == "M" \o ToString(m)
 CfgSet(names, n) == {IF \E m \in 1..n : MacroName(m) = names[i]
                      THEN CHOOSE m \in 1..n : MacroName(m) = names[i] ELSE 0 : i \in DOMAIN names}
 
-Judge(case, run, o) ==
+Judge(case, run, o, kk) ==
   LET L == Lines(case.forest)
       n == NNodes(case.forest)
       cfgs == [i \in DOMAIN run.cfgs |-> [c |-> CfgSet(run.cfgs[i].names, n), st |-> run.cfgs[i].st]]
@@ -287,28 +288,32 @@ Judge(case, run, o) ==
                     [f |-> "ReportExact", ok |-> ReportExact(L, checked, reported, run.others)],
                     [f |-> "RunOk", ok |-> run.rc = 0]>>
       failed == SelectSeq(verdicts, LAMBDA v : ~v.ok)
-  IN [failed |-> [i \in DOMAIN failed |-> failed[i].f],
+  IN [id |-> case.id, k |-> kk,
+      failed |-> [i \in DOMAIN failed |-> failed[i].f],
       uncovered |-> SetToSeq({i \in Reachable(L, o) : ~\E c \in checked : Active(L[i].g, c)}),
+      expected |-> SetToSeq(UNION {ActiveSet(L, c) : c \in checked}),
       coverDemanded |-> CoverDemanded(L, o),
       nontrivial |-> \/ (CoverDemanded(L, o) /\ Cardinality(checked) >= 2)
                      \/ o.d \cap (1..n) # {} \/ o.u \cap (1..n) # {}]
 
+\* cases and observations are aligned line by line
 JudgeAll ==
   LET cases == ndJsonDeserialize(IOEnv.CASES)
       obs == ndJsonDeserialize(IOEnv.OBS)
-      byId == [i \in {cases[k].id : k \in DOMAIN cases} |-> CHOOSE k \in DOMAIN cases : cases[k].id = i]
-      J(ob) == LET case == cases[byId[ob.id]]
-               IN [k \in DOMAIN ob.runs |-> [id |-> ob.id, k |-> k] @@ Judge(case, ob.runs[k], OptIn(case.opts[k]))]
-      all == FoldLeft(LAMBDA acc, ob : acc \o J(ob), <<>>, obs)
-      complete == \A i \in DOMAIN obs : Len(obs[i].runs) = Len(cases[byId[obs[i].id]].opts)
-  IN [all |-> all, complete |-> complete]
+      J(i) == [k \in DOMAIN obs[i].runs |-> Judge(cases[i], obs[i].runs[k], OptIn(cases[i].opts[k]), k)]
+      res == [i \in DOMAIN obs |-> J(i)]
+      complete == /\ Len(obs) = Len(cases)
+                  /\ \A i \in DOMAIN obs : obs[i].id = cases[i].id /\ Len(obs[i].runs) = Len(cases[i].opts)
+      Count(P(_)) == FoldLeft(LAMBDA a, r : a + Len(SelectSeq(r, P)), 0, res)
+  IN [complete |-> complete,
+      bad |-> FoldLeft(LAMBDA acc, r : acc \o SelectSeq(r, LAMBDA v : Len(v.failed) > 0), <<>>, res),
+      judged |-> Count(LAMBDA v : TRUE),
+      coverDemanded |-> Count(LAMBDA v : v.coverDemanded),
+      nontrivial |-> Count(LAMBDA v : v.nontrivial)]
 
 ASSUME Step = "judge" =>
   LET r == JudgeAll
-      bad == SelectSeq(r.all, LAMBDA v : Len(v.failed) > 0)
   IN /\ r.complete
-     /\ ndJsonSerialize(IOEnv.OUT, bad)
-     /\ PrintT(<<"JUDGED", Len(r.all), "BAD", Len(bad),
-                 "COVERDEMANDED", Len(SelectSeq(r.all, LAMBDA v : v.coverDemanded)),
-                 "NONTRIVIAL", Len(SelectSeq(r.all, LAMBDA v : v.nontrivial))>>)
+     /\ ndJsonSerialize(IOEnv.OUT, r.bad)
+     /\ PrintT(<<"JUDGED", r.judged, "BAD", Len(r.bad), "COVERDEMANDED", r.coverDemanded, "NONTRIVIAL", r.nontrivial>>)
 =============================================================================
